@@ -136,6 +136,11 @@ def bounds(tier):
                       "on 4 sets (2- and 4-point lattice set, helix6, 4*generic7): single superimpose calls, one stack "
                       "of all 252 motions, stacks of the near-identity motions only, superimpose_without_outliers; "
                       "rotate / rotate_centered / rotate_about_axis on the same ladder against the textbook value",
+            "farmask": "partial masks far from the origin: tetra4 (masks with 3 atoms), helix6 (every mask with 3..5 "
+                       "atoms), cluster8 (mask = 4 atoms within 1.5 A) x offset {0, (300,-200,100), (1000,1000,1000), "
+                       "(3000,0,0)} x 4 motions (identity, 40 deg about (1,2,3) + shift, 0.09 deg about z, cube "
+                       "rotation + shift) x {float32 ndarray, AtomArray, stack of the 4}; masked RMSD of the rigid "
+                       "copy <= float64 optimum + 20*eps32*(1+max|coord|)",
             "sizes": "6 sets x {superimpose, superimpose_without_outliers, rmsd, bool mask length, index mask} x fixed "
                      "size {1,n,n+2} x second operand size {1,n-1,n,n+1,2n,3n}: unequal sizes = exception or any value, "
                      "arguments untouched; equal sizes must work",
@@ -1116,7 +1121,7 @@ def shards(tier, seed):
         for c2 in perms:
             out.append({"kind": "homolog", "fam": "sub", "f": [c1, c2]})
     out += [dict(x) for x in AUDIT_SHARDS] + [dict(x) for x in AUDIT2_SHARDS] + [dict(x) for x in AUDIT3_SHARDS]
-    out += [dict(x) for x in LADDER_SHARDS]
+    out += [dict(x) for x in LADDER_SHARDS] + [dict(x) for x in FARMASK_SHARDS]
     # heavy first
     weight = {"fit": 0, "outlier": 1, "shape": 2, "homolog": 3, "audit": 4}
     out.sort(key=lambda s: (weight[s["kind"]], 0 if s.get("size") in (4, 5) else 1))
@@ -1230,6 +1235,10 @@ def _run_shard(shard, ctx):
                 run_homolog_case(ctx, c)
     elif k == "audit" and shard["fam"] == "ladder":
         run_ladder_shard(shard, ctx)
+    elif k == "audit" and shard["fam"] == "farmask":
+        for c in farmask_cases():
+            if ctx.journal(json.dumps(c)):
+                run_farmask_case(ctx, c)
     elif k == "audit" and shard["fam"] in ("sizes", "ambient", "boxed", "ties", "zeroscore"):
         run_audit3_shard(shard, ctx)
     elif k == "audit" and shard["fam"] in ("identity", "bparam", "combo", "derived"):
@@ -1273,6 +1282,8 @@ def replay(case, ctx):
         run_ndim_case(ctx, case)
     elif k == "audit" and case.get("fam") == "sizes":
         run_sizes_case(ctx, case)
+    elif k == "audit" and case.get("fam") == "farmask":
+        run_farmask_case(ctx, {x: case[x] for x in case if x not in ("focus", "motion")}, focus=case.get("focus"))
     elif k == "audit" and case.get("fam") == "ladder":
         if case.get("mode") == "transform":
             run_ladder_transform(ctx, case)
@@ -2431,3 +2442,102 @@ def run_ladder_shard(shard, ctx):
             run_ladder_transform(ctx, c)
         else:
             run_ladder_case(ctx, c)
+
+
+
+# ===========================================================================
+# partial masks far from the origin (round-6 seed) - see notes/C16.md "Round-6 seed"
+# ===========================================================================
+FAR_OFFSETS = {"o0": (0.0, 0.0, 0.0), "o300": (300.0, -200.0, 100.0), "o1000": (1000.0, 1000.0, 1000.0),
+               "o3000": (3000.0, 0.0, 0.0)}
+FAR_SETS = {
+    "tetra4": [[0.0, 0.0, 0.0], [2.0, 0.0, 1.0], [0.0, 2.0, 1.0], [1.0, 1.0, 2.0]],
+    "helix6": [list(map(float, p)) for p in BIG_SETS["helix6"]],
+    # four atoms within 1.5 A (the masked ones) and four far-flung ones
+    "cluster8": [[0.0, 0.0, 0.0], [1.0, 0.5, 0.0], [0.25, 1.0, 0.75], [0.75, 0.25, 1.0], [9.0, -4.0, 2.0],
+                 [-6.0, 7.0, 3.0], [2.0, 8.0, -9.0], [-5.0, -5.0, 6.0]],
+}
+FAR_MOTIONS = ["identity", "generic", "tiny", "cube"]
+FAR_BOUND_FACTOR = 20     # x eps32 x (1 + max|coordinate|); worst case on the unchanged tree: see notes
+
+
+def far_masks(setname):
+    n = len(FAR_SETS[setname])
+    if setname == "cluster8":
+        return [[i < 4 for i in range(n)]]
+    return [m for m in all_masks(n) if 3 <= sum(m) <= n - 1]
+
+
+def far_build(setname, offset):
+    F = (np.array(FAR_SETS[setname]) + np.array(FAR_OFFSETS[offset])).astype(np.float32).astype(np.float64)
+    mots = {"identity": (np.eye(3), np.zeros(3)),
+            "generic": (sp.axis_angle_rotation((1, 2, 3), np.deg2rad(40.0)), np.array([40.0, -25.0, 10.0])),
+            "tiny": (sp.axis_angle_rotation((0, 0, 1), np.deg2rad(90.0) * 2.0 ** -10), np.zeros(3)),
+            "cube": (sp.ROT24_F[8], np.array([5.0, -2.0, -6.0]))}
+    c = F.mean(axis=0)
+    # rotate about the structure's own centre so that the copy stays at the same distance from the origin
+    mob = np.stack([(F - c) @ mots[k][0].T + c + mots[k][1] for k in FAR_MOTIONS])
+    return F, mob.astype(np.float32).astype(np.float64)
+
+
+def run_farmask_case(ctx, case, focus=None):
+    import biotite.structure as struc
+
+    setname, offset, cont = case["set"], case["offset"], case["cont"]
+    mask = np.array(case["mask"], dtype=bool)
+    F, mob = far_build(setname, offset)
+    m, n = mob.shape[0], F.shape[0]
+    cls = "farmask/%s/%s/%s" % (cont, offset, "cluster" if setname == "cluster8" else "partmask%d" % int(mask.sum()))
+    ctx.ev(m, m)
+    ctx.count("accepted", m)
+    ctx.count("ev_audit_farmask", m)
+    try:
+        if cont == "stack":
+            fitted, tr = struc.superimpose(F.astype(np.float32), mob.astype(np.float32), atom_mask=mask.copy())
+            R, ct, tt, mat = extract(tr, m)
+            fitted = np.asarray(fitted, dtype=np.float64)
+        else:
+            fitted = np.empty_like(mob)
+            R, ct, tt, mat = np.empty((m, 3, 3)), np.empty((m, 3)), np.empty((m, 3)), np.empty((m, 4, 4))
+            for i in range(m):
+                if cont == "nd32":
+                    f, tr = struc.superimpose(F.astype(np.float32), mob[i].astype(np.float32), atom_mask=mask.copy())
+                else:
+                    f, tr = struc.superimpose(make_container("aa", [F]), make_container("aa", [mob[i]]),
+                                              atom_mask=mask.copy())
+                fitted[i] = coords_of(f)
+                R[i], ct[i], tt[i], mat[i] = [x[0] for x in extract(tr, 1)]
+    except Exception as e:  # noqa: BLE001
+        ctx.violation("superimpose|raises_%s|%s" % (type(e).__name__, cls), "legal input raised: %s" % e, case,
+                      observed=repr(e)[:300])
+        return
+    judge(ctx, "superimpose", cls, case, F, mob, mask, fitted, R, ct, tt, mat, focus=focus, selfcheck=False)
+    # rigid copy: the masked RMSD must come back to the float64 optimum of the very same float32 numbers, up to a
+    # float32 rounding bound derived from the coordinate magnitude
+    w = np.broadcast_to(mask.astype(np.float64), (m, n))
+    r = sp.rmsd(F, fitted, w)
+    opt = np.sqrt(sp.horn_min_msd(F, mob, w))
+    bound = FAR_BOUND_FACTOR * 6e-8 * (1.0 + np.max(np.abs(F)) + np.max(np.abs(mob), axis=(1, 2)))
+    bad = r > opt + bound
+    if focus is not None:
+        bad = bad & (np.arange(m) == focus)
+    if bad.any():
+        i = int(np.argmax(bad))
+        ctx.violation("superimpose|masked_rigid_copy_not_restored|" + cls,
+                      "masked RMSD after fitting a rigid copy exceeds the optimum by more than the float32 rounding bound",
+                      {**case, "focus": i, "motion": FAR_MOTIONS[i]}, expected=[float(opt[i]), float(bound[i])],
+                      observed=float(r[i]))
+    ctx.outcome(("farmask", cls))
+    return float(np.max((r - opt) / bound))
+
+
+FARMASK_SHARDS = [{"kind": "audit", "fam": "farmask"}]
+
+
+def farmask_cases():
+    for setname in FAR_SETS:
+        for mask in far_masks(setname):
+            for offset in FAR_OFFSETS:
+                for cont in ("nd32", "aa", "stack"):
+                    yield {"kind": "audit", "fam": "farmask", "set": setname, "offset": offset, "cont": cont,
+                           "mask": mask}
